@@ -40,6 +40,25 @@ def occurs(var, expr) -> bool:
     return False
 
 
+def pattern_ok(t) -> bool:
+    """A term usable as an E-matching pattern: no ite / connectives / lambdas inside."""
+    seen = set()
+    todo = [t]
+    while todo:
+        e = todo.pop()
+        if e.get_id() in seen:
+            continue
+        seen.add(e.get_id())
+        if z3.is_quantifier(e):
+            return False
+        if z3.is_app(e):
+            k = e.decl().kind()
+            if k in (z3.Z3_OP_ITE, z3.Z3_OP_AND, z3.Z3_OP_OR, z3.Z3_OP_NOT, z3.Z3_OP_IMPLIES, z3.Z3_OP_EQ):
+                return False
+            todo.extend(e.children())
+    return True
+
+
 class Unsupported(Exception):
     """Statement / expression outside the verified subset."""
 
@@ -234,6 +253,40 @@ class State:
         self.write(r, '$dom', z3.K(Val, z3.BoolVal(False)))
         self.write(r, '$map', z3.K(Val, Val.none))
         return v_ref(r, None).with_ty(TDict(kty, vty))
+
+    def assume_wf_dict(self, dv: V):
+        """Representation invariant of a pre-existing dict: its key list enumerates its domain
+        without repetition (insertion order)."""
+        from .vals import uf
+        r = as_ref(dv)
+        key = ('wfdict', r.get_id(), self.field('$elems').get_id(), self.field('$dom').get_id())
+        if key in self._typed:
+            return
+        self._typed.add(key)
+        n = self.read(r, '$len')
+        el = self.read(r, '$elems')
+        dom = self.read(r, '$dom')
+        pos = uf('dict_pos', z3.ArraySort(I, Val), Val, I)
+        j, j2 = z3.Int(fresh_name('j')), z3.Int(fresh_name('j'))
+        x = z3.Const(fresh_name('x'), Val)
+        def fa(vs, body, pat):
+            if pattern_ok(pat):
+                try:
+                    return z3.ForAll(vs, body, patterns=[pat])
+                except z3.Z3Exception:
+                    pass
+            return z3.ForAll(vs, body)
+        facts = [n >= 0,
+                 fa([j], z3.Implies(z3.And(j >= 0, j < n), z3.And(z3.Select(dom, z3.Select(el, j)),
+                                                                 pos(el, z3.Select(el, j)) == j)),
+                    z3.Select(el, j)),
+                 fa([x], z3.Implies(z3.Select(dom, x), z3.And(pos(el, x) >= 0, pos(el, x) < n,
+                                                              z3.Select(el, pos(el, x)) == x)),
+                    z3.Select(dom, x))]
+        kty = dv.ty.args[0] if len(dv.ty.args) == 2 else ANY
+        if kty.kind == 'str':
+            facts.append(fa([x], z3.Implies(z3.Select(dom, x), Val.is_s(x)), z3.Select(dom, x)))
+        self.pc.extend(facts)
 
     def dict_has(self, dv: V, key: V):
         return z3.Select(self.read(as_ref(dv), '$dom'), key.t)
